@@ -668,12 +668,16 @@ class Equiv1Macro(Macro):
         self.limit = None
     
     def eval(self, args, prevs):
+        if len(args) != 2 or len(prevs) != 1:
+            raise VeriTException("equiv2", "must have two literals and a single premise")
         pt = prevs[0]
+        if not (pt.prop.is_equals() and pt.prop.arg.get_type() == BoolType):
+            raise VeriTException("equiv2", "premise must be an equivalence")
         p1, p2 = pt.prop.args
         if p1 == args[0] and Not(p2) == args[1]:
             return Thm(Or(*args), pt.hyps)
         else:
-            raise VeriTException("equiv1", "unexpected result")
+            raise VeriTException("equiv2", "unexpected result")
     def get_proof_term(self, args, prevs):
         pt = prevs[0]
         pt1 = logic.apply_theorem("equiv2", pt)
